@@ -33,12 +33,37 @@ func (e *Engine) pcConj(ts []*Term) *Term {
 // runMerged explores all local paths of thunk. ok=false means the region
 // could not be merged (state is restored) and must be run normally.
 func (e *Engine) runMerged(thunk func() value) (result value, ok bool) {
+	results, ok := e.exploreLocal(thunk)
+	if !ok {
+		return nil, false
+	}
+	if len(results) == 0 {
+		panic(pathEnd{"all paths of merged region infeasible"})
+	}
+	// merge results
+	acc := results[len(results)-1].val
+	for i := len(results) - 2; i >= 0; i-- {
+		m, okm := e.mergeValue(results[i].cond, results[i].val, acc)
+		if !okm {
+			return nil, false
+		}
+		acc = m
+	}
+	if !e.applyMergedWrites(results) {
+		return nil, false
+	}
+	return acc, true
+}
+
+// exploreLocal runs thunk over all of its local paths under the current path
+// condition, rolling memory back after each. ok=false: not mergeable (a panic,
+// a map mutation, too many paths, ...); the state is as before the call.
+func (e *Engine) exploreLocal(thunk func() value) (results []mergeResult, ok bool) {
 	outer := e.cur
 	undoBase := len(e.undo)
 	ndBase := len(e.nd)
 	var local []workItem
 	nlocal := 0
-	var results []mergeResult
 	e.mergeDepth++
 	defer func() {
 		e.mergeDepth--
@@ -46,12 +71,12 @@ func (e *Engine) runMerged(thunk func() value) (result value, ok bool) {
 		if r := recover(); r != nil {
 			e.rollback(undoBase)
 			if _, isAbort := r.(mergeAbort); isAbort {
-				result, ok = nil, false
+				results, ok = nil, false
 				return
 			}
 			if _, isTP := r.(targetPanic); isTP {
 				// a panic on some local path: cannot merge
-				result, ok = nil, false
+				results, ok = nil, false
 				return
 			}
 			panic(r)
@@ -104,10 +129,12 @@ func (e *Engine) runMerged(thunk func() value) (result value, ok bool) {
 		}
 	}
 	e.cur = outer
-	if len(results) == 0 {
-		panic(pathEnd{"all paths of merged region infeasible"})
-	}
-	// merge writes
+	return results, true
+}
+
+// applyMergedWrites merges the memory writes of the local paths into the
+// current state and assumes the disjunction of the local path conditions.
+func (e *Engine) applyMergedWrites(results []mergeResult) bool {
 	type cellMerge struct {
 		p   *value
 		val value
@@ -129,21 +156,12 @@ func (e *Engine) runMerged(thunk func() value) (result value, ok bool) {
 				}
 				m, okm := e.mergeValue(results[i].cond, nv, acc)
 				if !okm {
-					return nil, false
+					return false
 				}
 				acc = m
 			}
 			merged = append(merged, cellMerge{p, acc})
 		}
-	}
-	// merge results
-	acc := results[len(results)-1].val
-	for i := len(results) - 2; i >= 0; i-- {
-		m, okm := e.mergeValue(results[i].cond, results[i].val, acc)
-		if !okm {
-			return nil, false
-		}
-		acc = m
 	}
 	for _, cm := range merged {
 		e.rawStore(cm.p, cm.val)
@@ -159,7 +177,7 @@ func (e *Engine) runMerged(thunk func() value) (result value, ok bool) {
 			e.assume(disj)
 		}
 	}
-	return acc, true
+	return true
 }
 
 func (e *Engine) rollback(base int) {
